@@ -319,6 +319,19 @@ def rule_key(ctx: Ctx) -> RuleResult:
                                                   f"(`{norm(c)}`)", w.relpath, c.lineno)
             else:
                 res.ok(f"{short}: delegate call passes the arguments unchanged", norm(c))
+        # a conditional store keeps the results that are there, not the empty ones
+        from ..shape import facts_at as _fa
+
+        for kind_, kexpr, node_, cname_ in acc:
+            if kind_ != "store":
+                continue
+            st_ = next((x for x in own_nodes(w.node) if isinstance(x, ast.Assign) and any(t_ is node_ for t_ in x.targets)), None)
+            if st_ is None:
+                continue
+            fs_ = _fa(ctx, w, st_)
+            if isinstance(st_.value, ast.Name) and (st_.value.id, False) in fs_:
+                res.violation([dq, "stores the empty results"], f"{short}: `{norm(st_)}` happens when `{st_.value.id}` is falsy: 'nothing found' is "
+                                                                f"remembered for ever, real results are never cached", w.relpath, st_.lineno)
         # store-then-read discipline (also the side condition of the R-EXC table entry)
         ok, detail = store_then_read(ctx, w)
         if ok:
